@@ -541,6 +541,70 @@ let run (cmd : string) (args : string list) : string =
         Printf.sprintf "%s #%d t%d%s" (String.concat " " evs) (int_of_n res.Search.r_gnodes) acc (if oc >= 2 then Printf.sprintf " MODEL-OUTCOME-%d" oc else ""))
       (String.split_on_char '|' fens) in
     String.concat " || " outs
+  | "msearch", [hseed; seed; depth; workers; nt; nb; hist; sched; fens] ->
+    (* several workers on one shared table under a forced schedule (model/Conc.v); the harness runs the real
+       analyze_iterative under the same schedule through the yield-point hook *)
+    let int_of_z = function Z0 -> 0 | Zpos p -> int_of_pos p | Zneg p -> - (int_of_pos p) in
+    let z_of_int i = if i >= 0 then (match n_of_int i with N0 -> Z0 | Npos p -> Zpos p) else (match n_of_int (-i) with N0 -> Z0 | Npos p -> Zneg p) in
+    let r0 = Rng.of_seed_u64 (Int64.of_string ("0u" ^ hseed)) in
+    let hs = Text.hasher_of_stream (L.init 1038 (fun _ -> Rng.next_u64_n r0)) in
+    let tt = ref (Table.empty_access (nat_of_int (int_of_string nt)) (nat_of_int (int_of_string nb))) in
+    let history = ref (if hist = "-" then [] else
+      L.filter_map (fun h -> match model_state h with Some st -> Some (Text.hash hs st) | None -> None) (String.split_on_char '|' hist)) in
+    let nw = int_of_string workers in
+    let iters = int_of_string depth in
+    let schedule = if sched = "-" then [] else L.map n_of_dec (String.split_on_char ',' sched) in
+    let outs = L.mapi (fun i fen ->
+      match model_state fen with
+      | None -> "badfen"
+      | Some st ->
+        let main = Rng.of_seed_u64 (Int64.add (Int64.of_string ("0u" ^ seed)) (Int64.of_int i)) in
+        (* the main rng hands one u64 to every worker of every iteration, in order *)
+        let wseeds : (int, Rng.t * int array ref * int ref) Hashtbl.t = Hashtbl.create 8 in
+        let drawn = ref 0 in
+        let worker it w =
+          let slot = it * nw + w in
+          (match Hashtbl.find_opt wseeds slot with
+           | Some x -> x
+           | None ->
+             while !drawn < slot do
+               let x = (Rng.of_seed_u64 (Rng.next_u64_int64 main), ref (Array.make 1024 0), ref 0) in
+               Hashtbl.replace wseeds !drawn x; incr drawn done;
+             (match Hashtbl.find_opt wseeds slot with
+              | Some x -> x
+              | None ->
+                let x = (Rng.of_seed_u64 (Rng.next_u64_int64 main), ref (Array.make 1024 0), ref 0) in
+                Hashtbl.replace wseeds slot x; incr drawn; x)) in
+        let jit_of itn wn idxn =
+          let (r, buf, filled) = worker (int_of_n itn) (int_of_n wn) in
+          let idx = int_of_n idxn in
+          while !filled <= idx do
+            if !filled >= Array.length !buf then begin
+              let nb = Array.make (2 * Array.length !buf) 0 in Array.blit !buf 0 nb 0 !filled; buf := nb end;
+            (!buf).(!filled) <- Rng.gen_range_incl r (-10) 10; incr filled
+          done;
+          z_of_int (!buf).(idx) in
+        (* workers are created in index order within an iteration: force the seeds in that order *)
+        let jit_of itn wn idxn = (for w = 0 to int_of_n wn do ignore (worker (int_of_n itn) w) done); jit_of itn wn idxn in
+        let res = Conc.analyze_iterativeM hs jit_of (nat_of_int nw) (nat_of_int iters) st !history !tt schedule in
+        tt := res.Conc.m_tt; history := res.Conc.m_history;
+        let evs = L.map (function
+          | Search.EvProgress (d, n) -> Printf.sprintf "P%d:%d" (int_of_n d) (int_of_n n)
+          | Search.EvBest (ev, line) -> Printf.sprintf "B%d:%s" (int_of_z ev) (String.concat "," (L.map (fun m -> string_of_int (int_of_n m)) line))) res.Conc.m_events in
+        let oc = int_of_n res.Conc.m_outcome in
+        let md = 1000000007 in
+        let nmod n = int_of_n (snd (BinNat.N.div_eucl n (n_of_int md))) in
+        let pad s = String.make (20 - String.length s) '0' ^ s in
+        let entries = L.concat_map (fun t -> L.concat_map (fun b -> L.filter_map (fun sl -> sl) b) t.Table.t_buckets) !tt in
+        let entries = L.sort (fun (k1, _) (k2, _) -> compare (pad (dec_of_n k1)) (pad (dec_of_n k2))) entries in
+        let kind_int = function Table.Exact -> 0 | Table.UpperBound -> 1 | Table.LowerBound -> 2 in
+        let acc = L.fold_left (fun acc (k, e) ->
+          L.fold_left (fun acc x -> (acc * 131 + x + 7) mod md) acc
+            [nmod k; kind_int e.Table.e_kind; nmod e.Table.e_move; int_of_n e.Table.e_depth mod md; int_of_n e.Table.e_maxdepth mod md; int_of_z e.Table.e_eval + 20000]) 17 entries in
+        let used = L.length schedule - L.length res.Conc.m_sched in
+        Printf.sprintf "%s T%d:%d S%d%s" (String.concat " " evs) (L.length entries) acc used (if oc >= 2 then Printf.sprintf " MODEL-OUTCOME-%d" oc else ""))
+      (String.split_on_char '|' fens) in
+    String.concat " || " outs
   | "specline", [fen; raws] ->
     (* is the line (packed moves, read by their coordinates) legal move by move under the rules? *)
     (match spec_pos fen with
